@@ -105,10 +105,11 @@ def main():
                 for pid in FILES[rel]:
                     rc2, out2 = sh(["/venv/bin/python", "harness/check.py", pid, "--tier", "quick"], VERIF, 1800)
                     if "VIOLATION" in out2:
-                        caught.append(pid + ("*" if "no-failing-input-found" in out2 else ""))
-                        if len(caught) >= 2:
+                        weak = all("no-failing-input-found" in l for l in out2.split("\n") if l.startswith("VIOLATION"))
+                        caught.append(pid + ("*" if weak else ""))
+                        if not weak:          # stop at the first check that shows a failing input
                             break
-                rec["result"] = "caught" if caught else "SURVIVED"
+                rec["result"] = ("caught" if any(not c.endswith("*") for c in caught) else "caught-weak") if caught else "SURVIVED"
                 rec["by"] = caught
                 done += 1
             log.write(json.dumps(rec) + "\n")
